@@ -245,7 +245,7 @@ func init() {
 
 	core.Register(&core.Rule{
 		Name: "R-EPOCH",
-		Doc: "The visited epoch of a generation-stamped table (an integer field E compared with and stored into elements of a slice field V by a gate function): (a) every increment of E is followed, before any call, by a test of E against 0 whose taken branch clears V (wrap handling: the 2^k-th search must not see stale marks; necessary for C13), and the table is not extended by re-slicing itself after the increment (the clear must cover the final extent); (b) no increment of E sits in a loop that also calls the gated recursion (a reset per start position turns the states x n visited bound into states x n^2; necessary for C05).",
+		Doc: "The visited epoch of a generation-stamped table (an integer field E compared with and stored into elements of a slice field V by a gate function): (a) every increment of E is followed, before any call, by a test of E against 0 whose taken branch clears V (wrap handling: the 2^k-th search must not see stale marks; necessary for C13), and the table is not extended by re-slicing itself after the increment (the clear must cover the final extent); (b) no increment of E, and no call of a function that increments E, sits in a loop that also calls the gated recursion (a reset per start position turns the states x n visited bound into states x n^2; necessary for C05).",
 		Min: 2, NeedSSA: true,
 		Run: func(p *core.Prog) *core.RuleResult {
 			res := &core.RuleResult{}
@@ -311,6 +311,62 @@ func init() {
 				}
 			}
 			kc := core.NewKeyCounter()
+			// functions that advance an epoch field (directly)
+			advances := map[*ssa.Function]*types.Var{}
+			for _, f := range p.SrcFuncs() {
+				for _, b := range f.Blocks {
+					for _, in := range b.Instrs {
+						st, ok := in.(*ssa.Store)
+						if !ok {
+							continue
+						}
+						_, owner, ef, elem := baseField(st.Addr)
+						if ef == nil || elem || epoch[ef] == nil {
+							continue
+						}
+						if bo, ok := st.Val.(*ssa.BinOp); ok && bo.Op == token.ADD && derivesFromLoadOf(bo.X, owner, ef, 0) {
+							advances[f] = ef
+						}
+					}
+				}
+			}
+			// (b') a call of an epoch-advancing function inside a loop that also calls the gated recursion
+			for _, f := range p.SrcFuncs() {
+				if strings.HasSuffix(p.File(f.Pos()), "_test.go") {
+					continue
+				}
+				comp, cyclic := blockSCCs(f)
+				for _, b := range f.Blocks {
+					if !cyclic[comp[b.Index]] {
+						continue
+					}
+					for _, in := range b.Instrs {
+						c, ok := in.(*ssa.Call)
+						if !ok {
+							continue
+						}
+						cal := c.Call.StaticCallee()
+						if cal == nil || advances[cal] == nil || cal == f {
+							continue
+						}
+						ob := core.Obligation{Key: kc.Key("R-EPOCH", core.FuncName(f), "call "+cal.Name()+" (advances "+advances[cal].Name()+") not-per-start-position"), Pos: p.Pos(c.Pos()), Nontrivial: true, Status: core.Discharged, Detail: "the loop does not call the gated recursion"}
+						for _, b2 := range f.Blocks {
+							if comp[b2.Index] != comp[b.Index] {
+								continue
+							}
+							for _, in2 := range b2.Instrs {
+								if c2, ok := in2.(*ssa.Call); ok {
+									if cal2 := c2.Call.StaticCallee(); cal2 != nil && reachGate[cal2] && cal2 != cal {
+										ob.Status = core.Violated
+										ob.Detail = fmt.Sprintf("%s advances the visited epoch and is called inside the start-position loop that calls %s (at %s): every start position re-explores all (state, position) pairs, Θ(states·n²)", cal.Name(), core.FuncName(cal2), p.Pos(c2.Pos()))
+									}
+								}
+							}
+						}
+						res.Obligations = append(res.Obligations, ob)
+					}
+				}
+			}
 			for _, f := range p.SrcFuncs() {
 				if strings.HasSuffix(p.File(f.Pos()), "_test.go") {
 					continue
